@@ -1,17 +1,43 @@
 TRUST = ('Trusted base: the exact rational reference model (mc/exact.py), the observation tolerances (mc/lib.py), '
-         'the admission guard, CPython; PYTHONHASHSEED pinned to 0; bounded to the stated finite alphabets.')
+         'the model-side admission guard, CPython; PYTHONHASHSEED pinned to 0; bounded to the finite alphabets stated in the evidence.')
+
+E1 = 'bounded-exhaustive explicit enumeration of a finite scene space on the real code, every scene compared with an exact rational reference model'
+
+_T = {
+ 'C01': ('exploration', 'Every ordered pair of flat objects (Line/HalfLine/Segment through all ordered lattice point pairs, all distinct lattice planes, '
+         'half-lattice points) under exact oblique poses is intersected by the real code (function and method form) and compared with the closed-form exact model; '
+         'all 25 type pairs and all collinear interval relations are populated (cells in evidence).'),
+ 'C02': ('exploration', 'For every catalogue body x pose, every flat anchored at a body feature (vertex, edge midpoint, face point, interior) with directions from D1, '
+         'edge directions and facet normals, in both argument orders, plus the exported boundary-hit helpers, is compared with exact clipping / vertex enumeration.'),
+ 'C03': ('exploration', 'Ordered pairs of catalogue bodies under all lattice translations of a window, all feature alignments, nested scalings and exact affine '
+         're-orientations (whole scene under oblique poses): result kind, vertex set, face count and measures against the exact vertex enumeration.'),
+ 'C05': ('exploration', 'Every (container, candidate) pair: lattice line-likes/planes x half-lattice points and lattice segments/half-lines/lines; bodies x feature points '
+         '(on, just inside, just outside every boundary feature), feature segments, faces, shrunk/shifted/enlarged faces, cross-sections; against exact containment.'),
+ 'C06': ('exploration', 'All vertex permutations (n! up to the stated n, structured family beyond), all face orders x 2^F orientations (bounds stated per F), lattice segments '
+         'and (face, apex) pyramids under poses: length/area/volume/height against exact rational measures.'),
+ 'C09': ('exploration', 'Same construction spaces as C06 plus vertex duplications and feedback of intersection results: vertex set, CCW cycle about the normal, negation, '
+         'outward face normals, exact vertex/edge/facet sets, Euler count, centre strictly inside.'),
+ 'C10': ('exploration', 'All documented pairs over lattice points, lines through all ordered lattice point pairs and all distinct lattice planes x poses, both argument orders, '
+         'function/method forms: value against the exact rational squared distance, sign, symmetry, zero iff intersection non-empty.'),
+ 'C11': ('exploration', 'All ordered pairs of lattice direction vectors (quick: D2xD2 plus every exactly parallel/anti-parallel/perpendicular pair of {-3..3}^3; thorough: all 342^2) '
+         'x 5 type combinations x angle/parallel/orthogonal x function, swapped, method forms against exact cos^2 and exact flags.'),
+ 'C16': ('exploration', 'Every augmented matrix of shapes 1x3..3x4 over small integer/half-integer alphabets is solved by the real solver and compared '
+         'with exact rational Gaussian elimination (truthiness, free-parameter count, every returned tuple substituted back).'),
+ 'C17': ('exploration', 'All planes Plane(p,n) with n in {-2..2}^3 (every zero/sign pattern), all (a,b,c,d) coefficient tuples, all non-collinear lattice point triples, all (v,w) '
+         'pairs, all lattice lines in three constructor forms: every read-back form rebuilt and compared with the exact plane/line; lattice membership of Plane(a,b,c,d).'),
+}
+
+_ENG = {}
+CHECKS = []
+for pid in sorted(_T):
+    lvl, text = _T[pid]
+    eng = 'E1'
+    CHECKS.append({'id': pid, 'engine': eng, 'level': lvl, 'ref': 'DESIGN.md §3 ' + pid,
+                   'technique': E1 if eng == 'E1' else '', 'text': text, 'note': TRUST})
 
 ENGINES = [
-    {'name': 'E1', 'path': 'mc/core.py', 'serves_properties': ['C16'],
-     'kind_free_text': 'sharded bounded-exhaustive product enumerator over scene alphabets, run on the real code against the exact model'},
-]
-
-CHECKS = [
-    {'id': 'C16', 'engine': 'E1', 'level': 'exploration', 'ref': 'DESIGN.md §3 C16',
-     'technique': 'bounded-exhaustive enumeration (explicit search over all small matrices) on the real code vs exact rational elimination',
-     'text': 'Every augmented matrix of shapes 1x3..3x4 over small integer/half-integer alphabets is solved by the real solver and compared '
-             'with exact rational Gaussian elimination (truthiness, free-parameter count, every returned tuple substituted back).',
-     'note': TRUST},
+    {'name': 'E1', 'path': 'mc/core.py', 'serves_properties': [c['id'] for c in CHECKS if c['engine'] == 'E1'],
+     'kind_free_text': 'sharded bounded-exhaustive product enumerator over scene alphabets, run on the real code against the exact model (mc/exact.py)'},
 ]
 
 _ALL = ['C%02d' % i for i in range(1, 21)]
